@@ -266,7 +266,8 @@ impl Run {
         s.cancel_at = env["cancelAt"].as_i64().unwrap();
         s.faults = env["faults"].as_array().unwrap().iter().map(|v| v.as_u64().unwrap() as u8).collect();
         let uv = &env["uv"];
-        s.uv_answer = if uv["kind"] == "ok" {
+        s.uv_asked = uv["kind"] == "asked";
+        s.uv_answer = if uv["kind"] == "ok" || uv["kind"] == "asked" {
             Ok((uv["pres"].as_bool().unwrap(), uv["verif"].as_bool().unwrap()))
         } else {
             Err(uv["err"].as_u64().unwrap() as u8)
